@@ -79,6 +79,7 @@ type Lay struct {
 	SameID  bool   `json:"sameid"`        // all children share one id number (only when their types differ)
 	NoThr   bool   `json:"nothr"`         // commit regime only: leave the Threshold option out (thresholds do not apply there)
 	Zones   int64  `json:"zones"`         // != 0: the time.Time values are held in varying locations (same instants), chosen from this seed
+	ReAnn   int    `json:"reann"`         // != 0: annotate the same (now annotated, Updates set) parents a second time: -2 without ChildFilter, -1 filter rejects all, k filter accepts only child k
 	Late    bool   `json:"late"`          // timestamp regime: no commit info although every timestamp is after CommitInfoStart
 }
 
@@ -406,8 +407,11 @@ func (s *sym) relations() osm.Relations {
 	return rs
 }
 
-func (s *sym) options() []annotate.Option {
+func (s *sym) options() []annotate.Option { return s.optionsFilt(s.c.O.Filt) }
+
+func (s *sym) optionsFilt(filt int) []annotate.Option {
 	o := s.c.O
+	o.Filt = filt
 	var opts []annotate.Option
 	thr := time.Duration(o.Eps*s.c.Lay.Unit) * time.Second
 	switch {
@@ -430,6 +434,13 @@ func (s *sym) options() []annotate.Option {
 		opts = append(opts, annotate.ChildFilter(func(f osm.FeatureID) bool { return f == want }))
 	}
 	return opts
+}
+
+func reFilt(reann int) int {
+	if reann == -2 {
+		return 0
+	}
+	return reann
 }
 
 // ---- recording -------------------------------------------------------------------------
@@ -541,6 +552,10 @@ func runCase(c *Case) Got {
 		if c.Lay.Kind == "way" {
 			ws := s.ways()
 			err := annotate.Ways(ctx, ws, ds, s.options()...)
+			if err == nil && c.Lay.ReAnn != 0 {
+				// incremental re-annotation: the parents enter annotated and carrying Updates
+				err = annotate.Ways(ctx, ws, ds, s.optionsFilt(reFilt(c.Lay.ReAnn))...)
+			}
 			run.Err = errName(err)
 			if err == nil {
 				for i, w := range ws {
@@ -564,6 +579,9 @@ func runCase(c *Case) Got {
 		} else {
 			rs := s.relations()
 			err := annotate.Relations(ctx, rs, ds, s.options()...)
+			if err == nil && c.Lay.ReAnn != 0 {
+				err = annotate.Relations(ctx, rs, ds, s.optionsFilt(reFilt(c.Lay.ReAnn))...)
+			}
 			run.Err = errName(err)
 			if err == nil {
 				for i, rel := range rs {
